@@ -26,6 +26,8 @@ for p, i, c, w, d in sorted(opened):
     out.append('| %s | %s | %s | %s |' % (p, i, c, d.replace('|', '/')[:260]))
 out.append('\n#### 8.4 Independently seeded changes and which checks catch them\n')
 out.append(subprocess.run([ROOT + '/tools/seedtable.py'], capture_output=True, text=True).stdout)
+out.append('\n#### 8.4b Benign changes (observable difference, property still holds) and whether any check raised an alarm\n')
+out.append(subprocess.run([ROOT + '/tools/benigntable.py'], capture_output=True, text=True).stdout)
 out.append('\n#### 8.5 What each check generates and compares now (from tools/checks.json + tools/checks.d, the same text MANIFEST.json carries)\n')
 out.append('Section 3 is the design as written before the code; the checks grew with every round of seeded changes. This table is the current state.\n')
 try:
